@@ -5233,7 +5233,7 @@ func smallWave20(c *core.Ctx, b *ob) {
 	// with later values (a stream of messages read with a new reader each, trailing bytes that
 	// Unmarshal must report) may not be drained into a read-ahead buffer of the library's own.
 	{
-		props := []string{"C04", "C08"}
+		props := []string{"C04", "C08", "C13"}
 		key := "thrift:no-read-ahead"
 		bad := ""
 		for _, fn := range c.RepoFunctions() {
@@ -7683,40 +7683,43 @@ func smallWave25(c *core.Ctx, b *ob) {
 			b.addP(props, core.Discharged, key, "-", fmt.Sprintf("%d uses of a pooled buffer's data as a destination, each as data[:0]", n))
 		}
 	}
-	// (t) a json.Number is text supplied by the program: its syntax is checked before it is copied
-	// into the output whatever the flags are (TrustRawMessage vouches for RawMessage values only)
-	{
-		props := []string{"C14", "C01"}
-		key := "encode-number:validated-under-every-flag"
-		fn := c.Lookup("json.(encoder).encodeNumber")
+	// (t) a json.Number and the output of a MarshalJSON method are text supplied by the program:
+	// their syntax is checked before they are copied into the output whatever the flags are
+	// (TrustRawMessage vouches for RawMessage values only)
+	for _, spec := range []struct{ fn, scan, key string }{
+		{"json.(encoder).encodeNumber", "parseNumber", "encode-number:validated-under-every-flag"},
+		{"json.(encoder).encodeJSONMarshaler", "parseValue", "marshaler-output:validated-under-every-flag"},
+	} {
+		props := []string{"C14", "C01", "C05"}
+		key := spec.key
+		fn := c.Lookup(spec.fn)
 		if fn == nil {
-			b.addP(props, core.Undecided, key, "-", "json.(encoder).encodeNumber not found")
+			b.addP(props, core.Undecided, key, "-", spec.fn+" not found")
+			continue
+		}
+		var val ssa.CallInstruction
+		for _, ci := range callsIn(fn) {
+			if g := staticCallee(ci.Common()); g != nil && g.Name() == spec.scan {
+				val = ci
+			}
+		}
+		if val == nil {
+			b.addP(props, core.Violation, key, c.FuncPos(fn), spec.fn+" no longer checks the text with "+spec.scan+": whatever the program supplied is copied into the output")
+			continue
+		}
+		cond := ""
+		for _, e := range dominatingEdges(val.Block()) {
+			if dependsOn(e.ifi.Cond, func(x ssa.Value) bool {
+				f, ok := fieldOfLoad(x)
+				return ok && strings.HasSuffix(f, "encoder.flags")
+			}) {
+				cond = c.InstrPos(e.ifi)
+			}
+		}
+		if cond != "" {
+			b.addP(props, core.Violation, key, c.InstrPos(val), spec.fn+" checks the text only under a test of the encoder's flags ("+cond+"): under the other setting invalid text (Number(\"7,\\\"admin\\\":true\"), a Marshaler returning [1,]) is copied into the output as it is — a document that Valid rejects, for some flag subsets only")
 		} else {
-			var val ssa.CallInstruction
-			for _, ci := range callsIn(fn) {
-				if g := staticCallee(ci.Common()); g != nil && g.Name() == "parseNumber" {
-					val = ci
-				}
-			}
-			switch {
-			case val == nil:
-				b.addP(props, core.Violation, key, c.FuncPos(fn), "encodeNumber no longer checks the literal with parseNumber: Number(\"12abc\") is copied into the output")
-			default:
-				cond := ""
-				for _, e := range dominatingEdges(val.Block()) {
-					if dependsOn(e.ifi.Cond, func(x ssa.Value) bool {
-						f, ok := fieldOfLoad(x)
-						return ok && strings.HasSuffix(f, "encoder.flags")
-					}) {
-						cond = c.InstrPos(e.ifi)
-					}
-				}
-				if cond != "" {
-					b.addP(props, core.Violation, key, c.InstrPos(val), "encodeNumber checks the literal only under a test of the encoder's flags ("+cond+"): under the other setting Number(\"7,\\\"admin\\\":true\") is copied into the output as it is — invalid JSON, or an extra member, for some flag subsets and an error for the others")
-				} else {
-					b.addP(props, core.Discharged, key, c.InstrPos(val), "parseNumber validates the literal on every path, whatever the flags")
-				}
-			}
+			b.addP(props, core.Discharged, key, c.InstrPos(val), spec.scan+" validates the text on every path, whatever the flags")
 		}
 	}
 	// (u) the option setters of thrift's Decoder and Encoder change the bit they are about and leave
